@@ -91,15 +91,25 @@ def main(argv: T.Optional[T.List[str]] = None) -> int:
             chk.errors.append(f'selftest crashed: {e.__class__.__name__}: {e}')
 
     rc = 0
+    rdir = os.path.join(VERIF, 'evidence', 'replay')
+    write_files = not args.no_evidence and not args.rule
+    if write_files and os.path.isdir(rdir):
+        for fn in os.listdir(rdir):       # stale replay files of earlier runs of this property
+            if fn.startswith(prop + '-'):
+                os.unlink(os.path.join(rdir, fn))
     if new:
         rc = 1
-        os.makedirs(os.path.join(VERIF, 'evidence', 'replay'), exist_ok=True)
+        if write_files:
+            os.makedirs(rdir, exist_ok=True)
         for i, f in enumerate(new):
-            path = os.path.join(VERIF, 'evidence', 'replay', f'{prop}-{f.rule}-{i}.json')
-            with open(path, 'w', encoding='utf-8') as fp:
-                d = f.to_json()
-                d['replay_cmd'] = f'./check {prop} --rule {f.rule}'
-                json.dump(d, fp, indent=1)
+            path = os.path.join(rdir, f'{prop}-{f.rule}-{i}.json')
+            if write_files:
+                with open(path, 'w', encoding='utf-8') as fp:
+                    d = f.to_json()
+                    d['replay_cmd'] = f'./check {prop} --rule {f.rule}'
+                    json.dump(d, fp, indent=1)
+            else:
+                path = f'(not written: ./check {prop} --rule {f.rule})'
             print(f'  {f.module}:{f.line} in {f.function} [{f.rule}] {f.message}')
             print(f'      construct: {f.construct[:200]}')
             print(f'VIOLATION property={prop} replay={path}')
